@@ -23,3 +23,12 @@ CLAIMED["C15"] = ("other", "partial evaluation of d_separations for k in {None,0
 CLAIMED["C16"] = ("other", "symbolic evaluation of both conversions and of every Evans-rule generator + guard truth tables + removed-set ⊆ latents implication + effects analysis",
     "Node set survives both conversions, edge roles of the round trip, only latents are removed, each rule's guard equals the published guard, middle-latent transformation steps, rule order, evans_simplify works on a fresh LV-DAG and only adds latent tags.",
     "Idempotence of the four-rule pipeline, equality with the latent projection and invariance of separation/identifiability are behavioural and NOT decided.", "§3 C16")
+CLAIMED["C01"] = ("other", "symbolic path enumeration of identify() + reference terms of the 7 published lines compared modulo set algebra (guard truth tables, action normal forms) + must-depend on the current distribution",
+    "Refinement to Shpitser & Pearl's ID: each published line (guard, arguments of the recursive call, summation ranges, conditional factors over the prefix of the current order) is matched by a path of identify(), in the published order of tests; every action depends on identification.estimand.",
+    "The numerical identity itself is the paper's soundness theorem + C14 (graph primitives) + C13 (DSL constructors), all trusted/checked elsewhere; termination not decided.", "§3 C01")
+CLAIMED["C02"] = ("other", "effects/freshness analysis over the call cone, AST check of the wrapper's handler, dead-raise discharge on symbolic paths, node-membership truth tables from graph.py-derived node tables",
+    "No mutation of graph/query/set arguments; Unidentifiable -> None exactly; the refusal is raised only on the line-5 path; every other coded raise is unreachable; ancestors/index lookups are asked only about nodes the derived surgery keeps; the Identification's graph copy is the same graph.",
+    "Termination and completeness (refuses exactly when a hedge exists) are the published theorem, not decided; networkx assumed to raise only on missing nodes.", "§3 C02")
+CLAIMED["C03"] = ("other", "symbolic evaluation of idc()/rule_2 + truth tables of the conditioning set and query triples + inherited ID/C04/R13.4 rules",
+    "Refinement to IDC: rule-2 graph (edges into X and out of z removed), ALL-outcomes quantifier, conditioning set X ∪ (Z∖{z}), exchange (Y, X∪{z}, Z∖{z}), base case identify(Y∪Z, X) normalised over Y; the internal ValueError is unreachable.",
+    "Value identity is the IDC theorem; separation oracle is C04; ID is C01/C02 (their rules are re-run inside this check).", "§3 C03")
